@@ -80,6 +80,9 @@ func c03EvalOrder(e *Env) {
 		"block-in-include-twice": "{% include 'blk' %}{% include 'blk' %}",
 		"with-duplicate-key":     "{% include 'p2' with {'k': 1, 'k': 2, 'j': 3, 'k': 4} %}",
 		"set-twice-in-loop":      "{% for i in [1, 2, 3] %}{% set q = i %}{% set q = q * 2 %}{% endfor %}{{ q }}",
+		// subscripts (literal and computed, so int and float64 indices) on an interface-keyed map whose keys print alike
+		"subscript-mixed-keys": "{% for i in [0, 1, 2] %}{{ mixed[i + 1] }},{{ mixed[loop.index] }},{{ mixed[(i + 1) ~ ''] }};{% endfor %}{{ mixed[1] }}{{ mixed['1'] }}{{ mixed[2] }}{{ mixed['2'] }}{{ mixed[1.0] }}{{ mixed[true] }}{{ mixed['true'] }}{{ mixed[3] }}",
+		"subscript-mixed-test": "{{ mixed[1] is defined ? 'd' : 'u' }}{{ 1 in mixed ? 'i' : 'n' }}{{ '1' in mixed ? 'i' : 'n' }}{{ mixed|length }}{{ mixed[2 - 1] == mixed[1] ? 'same' : 'other' }}",
 		// filters given a hash whose entries compete (one search string a prefix of another, equal after conversion)
 		"replace-hash-prefixes": "{{ '%name% %name %n'|replace({'%name': 'A', '%name%': 'B', '%n': 'C', '%': 'D', 'name': 'E'}) }}",
 		"replace-hash-overlap":  "{{ 'abcabc'|replace({'ab': '1', 'abc': '2', 'bc': '3', 'a': '4', 'c': '5', 'b': '6'}) }}",
@@ -95,7 +98,7 @@ func c03EvalOrder(e *Env) {
 			for k, v := range libs {
 				tpls[k] = v
 			}
-			im := runImpl(&Case{Templates: tpls, Main: "main", Ctx: map[string]any{}, FailAt: -1})
+			im := runImpl(&Case{Templates: tpls, Main: "main", FailAt: -1, Ctx: map[string]any{"mixed": map[interface{}]interface{}{1: "int1", "1": "str1", int64(2): "i64-2", "2": "str2", 2: "int2", true: "bool", "true": "strtrue", 3.0: "f3", 3: "int3", uint8(1): "u8-1"}}})
 			got := im.Class + "|" + im.Out
 			r.Seen(fmt.Sprintf("dup:%s:%d", name, rep), true)
 			if rep == 0 {
